@@ -46,6 +46,9 @@ family("C03_mc3", C03, **THREE, NickPool=fs(NIL, "x"), RolePool=fs(fs(), fs("r1"
 family("C03_child", C03, Vias=fs("people", "staff"), GradePool=fs("g1", "g2", ""), NickPool=fs(NIL, "x"),
        RolePool=fs(fs(), fs("r1")), FieldSets=Sub("FS_C03x"))
 
+# a set that is replaced by another one whose elements, written one after the other, give the same bytes (table ROLETAG of storechecks)
+family("C03_tag", C03, NamePool=fs("a", "b"), NickPool=fs(NIL), RolePool=fs(fs(), fs("r3"), fs("r1", "r2"), fs("r1"), fs("r2", "r3")), FieldSets=Sub("FS_C03"))
+
 # an index write the storage layer refuses (over-long key): the call fails, nothing is indexed
 family("C03_long", C03, Names=fs("", "a", "b", "p1", "p2", "p3", "p4", "p5", "LONG"), BadNames=fs("LONG"), NamePool=fs("a", "LONG"),
        NickPool=fs(NIL, "x"), RolePool=fs(fs(), fs("r1")), FieldSets=Sub("FS_C03"))
@@ -153,6 +156,8 @@ C16 = family("C16", BASE, Teams=fs("t1"), TeamMode="conCascadeNull", SysCtxs=fs(
 
 
 family("C16_child", C16, SysScope="child")
+# names that change (in the families above the name is the id): an update that passes every *other* check of the call
+family("C16_names", C16, NamePool=fs("a", "b", "p3"), IdNames=False, NickPool=fs(NIL), GradePool=fs("g1", "g2"), TeamPool=fs(NIL), Ops=fs("create", "update", "delete"))
 
 # bounds of the exhaustive runs, fitted to measured state counts (bin/size.py): quick finishes in well under a minute,
 # thorough in minutes.  Generation (simulation) always uses the richer family tables above.
